@@ -84,6 +84,8 @@ def pick_segment(st, r, p_undefined=0.15):
 
 
 def new_segment(st, r, name, tags=True):
+    if name in st.seq:
+        st.slen[name] = len(st.seq[name])
     n = seg_len(st, name)
     tg = gen.gen_tags(r, st.version, "S", True, maxn=2) if tags else []
     if st.version == "gfa1":
